@@ -78,7 +78,7 @@ func c06TemplateCases(r *rand.Rand) []any {
 	var out []any
 	flagSets := [][]string{
 		{}, {"--include-crds"}, {"--is-upgrade"}, {"--no-hooks"}, {"--skip-tests"}, {"--create-namespace"},
-		{"--dry-run=server"}, {"--dry-run=client"}, {"--dry-run=none"}, {"--dry-run=false"}, {"--atomic"}, {"--replace", "--take-ownership"},
+		{"--dry-run=server"}, {"--dry-run=client"}, {"--dry-run=none"}, {"--dry-run=false"}, {"--dry-run=true"}, {"--atomic"}, {"--replace", "--take-ownership"},
 		{"--skip-crds", "--force"}, {"--render-subchart-notes", "--hide-notes"}, {"--disable-openapi-validation"},
 		{"--include-crds", "--create-namespace", "--atomic", "--dry-run=server", "--take-ownership"},
 	}
